@@ -30,9 +30,9 @@ def _default(pid):
     }
 
 
-for _k in META:
-    if META[_k].get('technique') == 'TECH':
-        META[_k]['technique'] = TECH
+from contracts.claims import CLAIMS  # noqa
+for _k, _v in CLAIMS.items():
+    META[_k] = dict({'technique': TECH, 'design_ref': 'DESIGN.md section 4/%s and section 9' % _k, 'assumptions': []}, **_v)
 META['C16']['technique'] = TECH
 for _i in range(1, 21):
     _p = 'C%02d' % _i
